@@ -61,6 +61,8 @@ var wellKnownTypes = []string{
 	"func(*github.com/ostafen/clover/v2/document.Document) bool",
 	"*github.com/ostafen/clover/v2/document.Document",
 	"*errors.errorString",
+	"[]string",
+	"[]*github.com/ostafen/clover/v2/document.Document",
 }
 
 func tyKey(t types.Type) string {
